@@ -126,6 +126,12 @@ def run_case(case: Dict[str, Any]) -> CaseResult:
         tawazi.cfg.RUN_DEBUG_NODES = bool(case.get("build_flag"))
         try:
             built = prog.build(P, is_async=bool(case.get("async")), mc=case.get("mc", 2))
+            if case.get("copy_first"):
+                import copy as _copy
+
+                # the object that runs is a deep copy of the described DAG, made while the flag had its build-time value
+                built = prog.Built(built.prog, _copy.deepcopy(built.dag), built.xns, built.subs)
+                res.cls("deep-copy-then-flag-toggled")
         except BaseException as e:  # noqa: BLE001
             res.viol("error", f"building raised {type(e).__name__}: {str(e)[:300]}")
             return res
@@ -201,7 +207,7 @@ def cases(draw: Any, tier: str) -> Dict[str, Any]:
                            n_setup=draw(st.integers(0, 1)), n_debug=draw(st.integers(1, 3)), mark_roots=(mode != "executor")))
     case: Dict[str, Any] = {"prog": P, "mc": draw(st.integers(1, 3)), "async": draw(st.booleans()), "mode": mode}
     if draw(st.booleans()):
-        case.update(same_instance=True, on_first=draw(st.booleans()), build_flag=draw(st.booleans()))
+        case.update(same_instance=True, on_first=draw(st.booleans()), build_flag=draw(st.booleans()), copy_first=draw(st.booleans()))
     else:
         if draw(st.booleans()):
             case["describe_flag"] = draw(st.booleans())
